@@ -64,6 +64,9 @@ def m_len(I_, args, kws, st, ctx, k, node):
     return k(st, len(v))
   if isinstance(v, IterVal):
     return k(st, len(v.items))
+  if isinstance(v, WordArr):
+    L = v.data.length()
+    return k(st, (L // 2) if isinstance(L, int) else concretize(zint(L) / 2))
   if isinstance(v, Ref):
     o = st.obj(v)
     if o.kind in ("list", "dict", "set"):
@@ -402,9 +405,29 @@ def m_dict(I_, args, kws, st, ctx, k, node):
   return iter_values(I_, a, st, ctx, got, node)
 
 
+def m_array(I_, args, kws, st, ctx, k, node):
+  axiom("array.array('H', b): little-endian 16 bit words; ValueError unless len(b) is even (little-endian host)")
+  if len(args) != 2 or args[0] != "H":
+    raise Unsupported("array.array with typecode %r" % (args[0] if args else None,))
+  data = args[1]
+  if not is_byteslike(data):
+    return I_.raise_exc(st, ctx, TypeError, "array.array('H', x): x must be bytes", node)
+  s_ = as_sbytes(data)
+  L = s_.length()
+  where = I_.where(ctx, node)
+  even = (L % 2 == 0) if isinstance(L, int) else (zint(L) % 2 == 0)
+  return I_.safety(st, even, "safe.array@" + where,
+                   ExcVal(ValueError, ("bytes length not a multiple of item size",), where), ctx,
+                   lambda st2: k(st2, WordArr(s_)))
+
+
 def m_range(I_, args, kws, st, ctx, k, node):
   if all(isinstance(a, int) for a in args):
     return k(st, range(*args))
+  if len(args) == 2 and isinstance(args[0], int) and args[0] == 0 and is_intlike(args[1]):
+    return k(st, SymRange(args[1]))
+  if len(args) == 1 and is_intlike(args[0]):
+    return k(st, SymRange(args[0]))
   raise Unsupported("range() with symbolic bounds needs a loop invariant at %s" % I_.where(ctx, node))
 
 
@@ -953,6 +976,8 @@ _UNION_AWARE.update([builtins.isinstance, builtins.len, builtins.type, builtins.
                      builtins.bytes, builtins.hash, builtins.id, builtins.repr])
 from . import api as _api
 _TABLE[_api.forall] = m_forall
+import array as _array
+_TABLE[_array.array] = m_array
 import functools as _functools
 import operator as _operator
 _TABLE[_functools.reduce] = m_reduce
